@@ -23,40 +23,20 @@ import (
 	digest "github.com/opencontainers/go-digest"
 )
 
-// Candidate-finding signatures (labelled streams; see the final report of the C02 engineer).
+// Signatures of the KNOWN findings of the db store (findings/known_findings.txt); their witnesses run
+// in a pass of their own (TestVerifC02DBKnown).  The other three findings of the first round are
+// repaired in /repo (8686934, 46fe897, eb6fe18); their witnesses are regression scenarios of the main
+// streams now and fail under the ordinary signatures.
 const (
-	// memory store: a gzip member starting at blob offset 0 that holds a non-empty file followed by an
-	// empty regular file makes every read through the pre-reader fail
-	// ("discard of remaining -N bytes").
-	SigEmptyInFirstMember = "read-fails-empty-file-in-first-gzip-member"
 	// db store: GetAttr(rootID) does not wait for the asynchronous TOC import, so the root node is
 	// created with the placeholder attributes (0755, nlink 2, no owner/mtime/xattrs) instead of the
 	// ones of the archive's root entry / its subdirectory count.
 	SigDBRootAttr = "db-root-attr-read-before-init"
-	// db store: readInnerChunks lists every chunk of a file once per chunk of that file in the
-	// member, so a file with two or more chunks in one gzip member makes every pre-reading read of
-	// that member fail ("discard of remaining -N bytes").
-	SigDBTwoChunksInMember = "db-read-fails-two-chunks-of-a-file-in-one-member"
 	// db store: a directory entry that comes after an entry below it (the directory was created
 	// implicitly first) registers the directory as a child of its parent a second time, and the
 	// parent's link count is incremented twice.
 	SigDBLateDir = "db-dir-nlink-double-counted-late-dir-entry"
 )
-
-// TaintedDB reports whether some file has two chunks in the same compressed member (layout of the
-// labelled candidate finding SigDBTwoChunksInMember).
-func TaintedDB(files map[string]*TocFile) bool {
-	for _, f := range files {
-		seen := map[int64]bool{}
-		for _, c := range f.Chunks {
-			if seen[c.Offset] {
-				return true
-			}
-			seen[c.Offset] = true
-		}
-	}
-	return false
-}
 
 // Ent is one tar header to be written (+ the formula of its payload).
 type Ent struct {
